@@ -86,6 +86,33 @@ def subsArgs (j : Json) (subsKey : String) : R SubsArgs := do
   let width := match subs with | [] => shape.length | r :: _ => r.length
   .ok { shape, width, subs, nvals }
 
+/-- `ttv`: multiplicands by length (`vecs`) or, for `ktensor.ttv`, by shape (`vshapes`: arrays of any order, singleton
+axes are dropped) -/
+def ttvOp (j : Json) : R Json := do
+  let shape ← field j "shape" >>= asNats
+  let dims ← optIntsF j "dims"
+  let excl ← optIntsF j "excl"
+  match fieldOpt j "vshapes" with
+  | some v =>
+    let vshapes ← asNatMat v
+    let a : TtvMArgs := { shape, vshapes, dims, excl }
+    .ok (reply (decide (Pre_ttvM a)) (validate_ttvM a))
+  | none =>
+    let vecs ← field j "vecs" >>= asNats
+    let a : TtvArgs := { shape, vecs, dims, excl }
+    .ok (reply (decide (Pre_ttv a)) (validate_ttv a))
+
+/-- `khatrirao`: matrices (`mats`) or arguments of any order by shape (`shapes`) -/
+def khatriraoOp (j : Json) : R Json := do
+  let rev ← field j "rev" >>= asBool
+  match fieldOpt j "shapes" with
+  | some v =>
+    let shapes ← asNatMat v
+    .ok (reply (decide (Pre_khatriraoND shapes)) (validate_khatriraoND shapes rev))
+  | none =>
+    let ms ← field j "mats" >>= asMatSs
+    .ok (reply (decide (Pre_khatrirao ms)) (validate_khatrirao ms rev))
+
 def ops19 : List (String × Op) := [
   ("c19_dimscheck", fun j => do
     let n ← field j "N" >>= asNat
@@ -93,13 +120,7 @@ def ops19 : List (String × Op) := [
     let dims ← optIntsF j "dims"
     let excl ← optIntsF j "excl"
     .ok (reply (decide (Pre_dimscheck n m dims excl)) (validate_dimscheck n m dims excl))),
-  ("c19_ttv", fun j => do
-    let shape ← field j "shape" >>= asNats
-    let vecs ← field j "vecs" >>= asNats
-    let dims ← optIntsF j "dims"
-    let excl ← optIntsF j "excl"
-    let a : TtvArgs := { shape, vecs, dims, excl }
-    .ok (reply (decide (Pre_ttv a)) (validate_ttv a))),
+  ("c19_ttv", ttvOp),
   ("c19_ttm", fun j => do
     let rep ← field j "rep" >>= asRep
     let shape ← field j "shape" >>= asNats
@@ -234,6 +255,21 @@ def ops19 : List (String × Op) := [
       let n ← field j "n" >>= asNat
       let cw ← field j "cw" >>= asBool
       .ok (reply (decide (Pre_fromVector s n cw)) (validate_fromVector s n cw))
+    | "sptensor_given" => do
+      let subs ← field j "subs" >>= asBool
+      let vals ← field j "vals" >>= asBool
+      .ok (reply (decide (Pre_sptensorGiven subs vals)) (validate_sptensorGiven subs vals))
+    | "sptenmat_given" => do
+      let subs ← field j "subs" >>= asBool
+      let vals ← field j "vals" >>= asBool
+      let dims ← field j "dims" >>= asBool
+      .ok (reply (decide (Pre_sptenmatGiven subs vals dims)) (validate_sptenmatGiven subs vals dims))
+    | "vector_data" => do
+      let s ← field j "dshape" >>= asNats
+      .ok (reply (decide (Pre_isVector s)) (validate_isVector s))
+    | "shape_array" => do
+      let s ← field j "ashape" >>= asNats
+      .ok (reply (decide (Pre_shapeArray s)) (validate_shapeArray s))
     | _ => .error s!"unknown constructor {k}"),
   ("c19_ktensor_modes", fun j => do
     let shape ← field j "shape" >>= asNats
@@ -363,6 +399,10 @@ def ops19 : List (String × Op) := [
     | "viz" => do
       let lens ← field j "lens" >>= asNats
       .ok (reply (decide (Pre_viz shape.length lens)) (validate_viz shape.length lens))
+    | "tenfun_arity" => do
+      let nargs ← field j "nargs" >>= asNat
+      let others ← field j "nothers" >>= asNat
+      .ok (reply (decide (Pre_tenfunArity nargs others)) (validate_tenfunArity nargs others))
     | _ => .ok (reply (decide (Pre_spmatrix shape)) (validate_spmatrix shape))),
   ("c19_mask", fun j => do
     let shape ← field j "shape" >>= asNats
@@ -372,10 +412,7 @@ def ops19 : List (String × Op) := [
     let a ← subsArgs j "subs"
     let a := { a with nvals := a.subs.length }
     .ok (reply (decide (Pre_extract a)) (validate_extract a))),
-  ("c19_khatrirao", fun j => do
-    let ms ← field j "mats" >>= asMatSs
-    let rev ← field j "rev" >>= asBool
-    .ok (reply (decide (Pre_khatrirao ms)) (validate_khatrirao ms rev))),
+  ("c19_khatrirao", khatriraoOp),
   ("c19_algorithms", fun j => do
     let alg ← field j "alg" >>= asStr
     let shape ← field j "shape" >>= asNats
@@ -431,6 +468,10 @@ def ops19 : List (String × Op) := [
       else if t == "slice" then do let b ← field e "stop" >>= asBool; pure (KeyEntry.slice b)
       else do let n ← field e "len" >>= asNat; pure (KeyEntry.list n))
     .ok (replyInPlace (decide (Pre_spAssign key rhs)) (validate_spAssign key rhs))),
+  ("c19_sp_setsubs", fun j => do
+    let shape ← field j "shape" >>= asNats
+    let w ← field j "width" >>= asNat
+    .ok (replyInPlace (decide (Pre_setSubsWidth shape.length w)) (validate_setSubsWidth shape.length w))),
   ("c19_subdims", fun j => do
     let n ← field j "N" >>= asNat
     let len ← field j "len" >>= asNat
